@@ -13,18 +13,36 @@ Gen/Consts.vos Gen/Consts.vok Gen/Consts.required_vos: Gen/Consts.v
 Model/NameWire.vo Model/NameWire.glob Model/NameWire.v.beautified Model/NameWire.required_vo: Model/NameWire.v Base/Res.vo Base/Octets.vo Gen/Consts.vo
 Model/NameWire.vio: Model/NameWire.v Base/Res.vio Base/Octets.vio Gen/Consts.vio
 Model/NameWire.vos Model/NameWire.vok Model/NameWire.required_vos: Model/NameWire.v Base/Res.vos Base/Octets.vos Gen/Consts.vos
+Model/RdataLite.vo Model/RdataLite.glob Model/RdataLite.v.beautified Model/RdataLite.required_vo: Model/RdataLite.v Model/Reader.vo
+Model/RdataLite.vio: Model/RdataLite.v Model/Reader.vio
+Model/RdataLite.vos Model/RdataLite.vok Model/RdataLite.required_vos: Model/RdataLite.v Model/Reader.vos
+Model/Reader.vo Model/Reader.glob Model/Reader.v.beautified Model/Reader.required_vo: Model/Reader.v Model/NameWire.vo
+Model/Reader.vio: Model/Reader.v Model/NameWire.vio
+Model/Reader.vos Model/Reader.vok Model/Reader.required_vos: Model/Reader.v Model/NameWire.vos
 Proofs/NameWireP.vo Proofs/NameWireP.glob Proofs/NameWireP.v.beautified Proofs/NameWireP.required_vo: Proofs/NameWireP.v Base/ListX.vo Model/NameWire.vo Spec/NameWireS.vo Spec/NameRepr.vo
 Proofs/NameWireP.vio: Proofs/NameWireP.v Base/ListX.vio Model/NameWire.vio Spec/NameWireS.vio Spec/NameRepr.vio
 Proofs/NameWireP.vos Proofs/NameWireP.vok Proofs/NameWireP.required_vos: Proofs/NameWireP.v Base/ListX.vos Model/NameWire.vos Spec/NameWireS.vos Spec/NameRepr.vos
 Proofs/NameWireSP.vo Proofs/NameWireSP.glob Proofs/NameWireSP.v.beautified Proofs/NameWireSP.required_vo: Proofs/NameWireSP.v Base/ListX.vo Spec/NameWireS.vo
 Proofs/NameWireSP.vio: Proofs/NameWireSP.v Base/ListX.vio Spec/NameWireS.vio
 Proofs/NameWireSP.vos Proofs/NameWireSP.vok Proofs/NameWireSP.required_vos: Proofs/NameWireSP.v Base/ListX.vos Spec/NameWireS.vos
+Proofs/RdataLiteP.vo Proofs/RdataLiteP.glob Proofs/RdataLiteP.v.beautified Proofs/RdataLiteP.required_vo: Proofs/RdataLiteP.v Base/ListX.vo Model/NameWire.vo Model/Reader.vo Model/RdataLite.vo Proofs/NameWireP.vo
+Proofs/RdataLiteP.vio: Proofs/RdataLiteP.v Base/ListX.vio Model/NameWire.vio Model/Reader.vio Model/RdataLite.vio Proofs/NameWireP.vio
+Proofs/RdataLiteP.vos Proofs/RdataLiteP.vok Proofs/RdataLiteP.required_vos: Proofs/RdataLiteP.v Base/ListX.vos Model/NameWire.vos Model/Reader.vos Model/RdataLite.vos Proofs/NameWireP.vos
+Proofs/ReaderP.vo Proofs/ReaderP.glob Proofs/ReaderP.v.beautified Proofs/ReaderP.required_vo: Proofs/ReaderP.v Base/ListX.vo Model/NameWire.vo Model/Reader.vo Spec/NameWireS.vo Spec/NameRepr.vo Spec/ReaderS.vo Proofs/NameWireP.vo
+Proofs/ReaderP.vio: Proofs/ReaderP.v Base/ListX.vio Model/NameWire.vio Model/Reader.vio Spec/NameWireS.vio Spec/NameRepr.vio Spec/ReaderS.vio Proofs/NameWireP.vio
+Proofs/ReaderP.vos Proofs/ReaderP.vok Proofs/ReaderP.required_vos: Proofs/ReaderP.v Base/ListX.vos Model/NameWire.vos Model/Reader.vos Spec/NameWireS.vos Spec/NameRepr.vos Spec/ReaderS.vos Proofs/NameWireP.vos
 Props/C14.vo Props/C14.glob Props/C14.v.beautified Props/C14.required_vo: Props/C14.v Base/ListX.vo Model/NameWire.vo Spec/NameWireS.vo Spec/NameRepr.vo Proofs/NameWireP.vo Proofs/NameWireSP.vo
 Props/C14.vio: Props/C14.v Base/ListX.vio Model/NameWire.vio Spec/NameWireS.vio Spec/NameRepr.vio Proofs/NameWireP.vio Proofs/NameWireSP.vio
 Props/C14.vos Props/C14.vok Props/C14.required_vos: Props/C14.v Base/ListX.vos Model/NameWire.vos Spec/NameWireS.vos Spec/NameRepr.vos Proofs/NameWireP.vos Proofs/NameWireSP.vos
+Props/C15.vo Props/C15.glob Props/C15.v.beautified Props/C15.required_vo: Props/C15.v Base/ListX.vo Model/NameWire.vo Model/Reader.vo Model/RdataLite.vo Spec/NameWireS.vo Spec/NameRepr.vo Spec/ReaderS.vo Proofs/NameWireP.vo Proofs/ReaderP.vo Proofs/RdataLiteP.vo
+Props/C15.vio: Props/C15.v Base/ListX.vio Model/NameWire.vio Model/Reader.vio Model/RdataLite.vio Spec/NameWireS.vio Spec/NameRepr.vio Spec/ReaderS.vio Proofs/NameWireP.vio Proofs/ReaderP.vio Proofs/RdataLiteP.vio
+Props/C15.vos Props/C15.vok Props/C15.required_vos: Props/C15.v Base/ListX.vos Model/NameWire.vos Model/Reader.vos Model/RdataLite.vos Spec/NameWireS.vos Spec/NameRepr.vos Spec/ReaderS.vos Proofs/NameWireP.vos Proofs/ReaderP.vos Proofs/RdataLiteP.vos
 Spec/NameRepr.vo Spec/NameRepr.glob Spec/NameRepr.v.beautified Spec/NameRepr.required_vo: Spec/NameRepr.v Model/NameWire.vo Spec/NameWireS.vo
 Spec/NameRepr.vio: Spec/NameRepr.v Model/NameWire.vio Spec/NameWireS.vio
 Spec/NameRepr.vos Spec/NameRepr.vok Spec/NameRepr.required_vos: Spec/NameRepr.v Model/NameWire.vos Spec/NameWireS.vos
 Spec/NameWireS.vo Spec/NameWireS.glob Spec/NameWireS.v.beautified Spec/NameWireS.required_vo: Spec/NameWireS.v Base/Res.vo Base/Octets.vo
 Spec/NameWireS.vio: Spec/NameWireS.v Base/Res.vio Base/Octets.vio
 Spec/NameWireS.vos Spec/NameWireS.vok Spec/NameWireS.required_vos: Spec/NameWireS.v Base/Res.vos Base/Octets.vos
+Spec/ReaderS.vo Spec/ReaderS.glob Spec/ReaderS.v.beautified Spec/ReaderS.required_vo: Spec/ReaderS.v Spec/NameWireS.vo
+Spec/ReaderS.vio: Spec/ReaderS.v Spec/NameWireS.vio
+Spec/ReaderS.vos Spec/ReaderS.vok Spec/ReaderS.required_vos: Spec/ReaderS.v Spec/NameWireS.vos
